@@ -177,6 +177,42 @@ func HarnessC06TwoClosersRunning() {
 	})
 }
 
+// HarnessC06CloseTwiceRunning: one caller calls Close twice in a row while a handler invocation is known to be in
+// progress (released at an arbitrary moment): the first call may give up on CloseTimeout; neither call may
+// return nil while the invocation is still running (the light version of CloseTwice / TwoClosersRunning).
+func HarnessC06CloseTwiceRunning() {
+	r, err := NewRouter(RouterConfig{CloseTimeout: 0}, watermill.NopLogger{})
+	vrt.Assert(err == nil, "router")
+	st := &c06State{}
+	sub := &directSubscriber{}
+	entered, release := make(chan struct{}), make(chan struct{})
+	r.AddNoPublisherHandler("h", "in", sub, func(m *Message) error {
+		st.enter()
+		close(entered)
+		<-release
+		st.leave()
+		return nil
+	})
+	r.isRunning = true
+	ctx, cancel := context.WithCancel(context.Background())
+	defer cancel()
+	vrt.Assert(r.RunHandlers(ctx) == nil, "handlers started")
+	sub.chans[0] <- NewMessage("m", nil)
+	<-entered
+	go func() { close(release) }()
+	for k := 0; k < 2; k++ {
+		err := r.Close()
+		vrt.Tag("close.call", k)
+		st.closeReturned(err)
+		if err == nil {
+			vrt.Assert(sub.closed, "when Close returns nil the handler's subscriber has been closed")
+		}
+	}
+	vrt.AtQuiescence(func() {
+		vrt.Assert(st.started == st.finished, "every started invocation ran to completion")
+	})
+}
+
 // HarnessC06Run: Run returns only after the close has completed (never while Close is still waiting).
 func HarnessC06Run() {
 	r, _ := NewRouter(RouterConfig{}, watermill.NopLogger{})
